@@ -277,6 +277,7 @@ func (engine *Engine) TakeSnapshot() error {
 		log.Println(err)
 		return err
 	}
+	verif.Point("snap.state.rename")
 
 	// The state file is complete and on disk: only now publish it in the manifest.
 	// The manifest is written to a temporary file and renamed into place, so that a crash at any
@@ -315,6 +316,7 @@ func (engine *Engine) TakeSnapshot() error {
 		log.Println(err)
 		return err
 	}
+	verif.Point("snap.manifest.rename")
 
 	// Set the latest snapshot in unix milliseconds
 	engine.setLatestSnapshotTimeFunc(msec)
